@@ -86,7 +86,22 @@ P.update({
          "operands of ~= and wildcards) - no exception of the library's own. Which strings are accepted, and the translation of packaging's InvalidSpecifier, are the text layer: decided by the direct oracle against SpecifierSet (1500/30000 texts incl. near misses).",
          TB_PARSE, "machine-checked proof in Coq over a hand model + correspondence; acceptance of raw strings by differential oracle against packaging", "5"),
 })
-for k in ("C02", "C04", "C06", "C17"):
+P.update({
+ "C03": ("proof", "C03_parse: for EVERY parsed marker tree, the marker _build_markers returns (through &, MarkerUnion.of, cnf/dnf, union_simplify ...) evaluates in every environment exactly as packaging's own fold over the tree "
+         "(pkg_eval = packaging.markers._evaluate_markers, verbatim), provided atoms evaluate alike. Atom evaluation is the model parameter atom_eval: string variables, extras and reversed operands are modelled and compared by MCEval "
+         "correspondence cases; version-like atoms are a table of the environment. Atom-level and end-to-end agreement with packaging's Marker.evaluate is what the direct oracle checks (~780 texts x environments per quick run). "
+         "So: proof for the rewriting done while parsing; differential oracle for the atom evaluator against packaging.",
+         TB_MARKER + "; packaging.markers as the reference of the oracle", "machine-checked proof in Coq over a hand model + correspondence + differential oracle against packaging for atom evaluation", "5"),
+ "C12": ("proof", "PARTIAL. Proved (C12_only_implied / C12_only_identity / C12_only_wf over Model/Marker.v, all fuels / set orders / sound merges): m.only(names) is implied by m in every environment, and equals m in meaning when m mentions "
+         "only those names. NOT proved, decided by the direct oracle only: that the result mentions no variable outside names (a syntactic invariant through the whole normaliser), and the statements about exclude()/without_extras(). "
+         "Quick: cone + S-mark (incl. only/exclude cases compared structurally) + oracle on ~250 markers x subsets x environment grids.",
+         TB_MARKER, "machine-checked proof in Coq (only(): implication and identity) + correspondence + property oracle (variable containment, exclude)", "5"),
+})
+P["C14"] = ("proof", "Specifier part: 13 laws + complement as `==` of the returned objects, each an instance of the closure/uniqueness theorems over the regenerated model. Marker part: C14m_closure / C14m_law over Model/Marker.v: every &,| expression "
+            "over markers evaluates as the Boolean combination of its leaves, so both sides of ANY Boolean identity (all the lattice laws the property names) yield markers with the same meaning in every environment (equivalence, as the property asks; "
+            "not structural equality). Ties: S-gen (specifiers), S-mark (markers); direct oracles on both parts.",
+            TB_PROOF + "; " + TB_MARKER, "machine-checked proof in Coq (specifiers over the regenerated model; markers over a hand model) + correspondence", "5")
+for k in ("C02", "C04", "C06", "C17", "C03", "C12"):
     ORACLE_ONLY.pop(k, None)
 checks = []
 for pid in sorted(set(P) | set(ORACLE_ONLY)):
